@@ -1,154 +1,315 @@
 import CollectionsC.Proofs.TSTIter
 /-! Helper lemmas for the cross-cutting properties of the TST table (C06, C07, C08, C14, C16):
-libc invariance, independence of the ledger (only the refusal schedule matters), structural
-step lemma for every key (the empty one included), run over appended histories. -/
+which allocator triple is used, independence of the ledger (only the refusal schedule matters),
+structural step lemma for every key (the empty one included) and every iterator session,
+run over appended histories. -/
 set_option linter.unusedSimpArgs false
 set_option linter.unusedVariables false
 namespace CC.TST
 open CC
 open CC.Spec.StrMap (Op Out IOp IOut)
 
-variable {cmp : Cmp}
+variable {cmp : Cmp} {tr : Triple}
 
 /-- closes goals that `simp only` may or may not have reduced to `True` already -/
 local macro "triv" : tactic => `(tactic| first | rfl | trivial | simp)
 
-/-! ### libc counter: every event goes through the configured triple -/
+/-! ### only the table's own allocator triple is used -/
 
-theorem alloc_libc (m : Mem) : m.alloc.2.libc = m.libc := by unfold Mem.alloc; split <;> rfl
-theorem free_libc (m : Mem) : m.free.libc = m.libc := by unfold Mem.free; split <;> rfl
+/-- everything that belongs to the *other* allocator triple is untouched: for a table built with the
+configured triple the C-library counters (events, live blocks, per-call events), for a table built on the
+C library the configured ledger (live blocks, per-call events, refusals, the schedule itself) -/
+def SameOther (tr : Triple) (m m' : Mem) : Prop :=
+  match tr with
+  | .conf => m'.libc = m.libc ∧ m'.liveLibc = m.liveLibc ∧ m'.lalloc = m.lalloc ∧ m'.lfree = m.lfree
+  | .libc => m'.live = m.live ∧ m'.nalloc = m.nalloc ∧ m'.nfree = m.nfree ∧ m'.nrefused = m.nrefused ∧
+      m'.sched = m.sched
 
-theorem ins_libc (key : Key) (v : Nat) (t : Node) (ks : Key) (mem : Mem) :
-    (t.ins cmp key v ks mem).mem.libc = mem.libc := (ins_spec key v t ks mem).2.2.2
+theorem SameOther.refl (tr : Triple) (m : Mem) : SameOther tr m m := by
+  cases tr <;> simp [SameOther]
 
-theorem rebuild_libc (c : Nat) (d : Option Entry) (l m r : Node) (q : RemRes) :
-    (rebuild c d l m r q).mem.libc = q.mem.libc := by
+theorem SameOther.trans {tr : Triple} {a b c : Mem} (h1 : SameOther tr a b) (h2 : SameOther tr b c) :
+    SameOther tr a c := by
+  cases tr <;> simp only [SameOther] at * <;> simp [h1, h2]
+
+theorem sameOther_allocT (m : Mem) (tr : Triple) : SameOther tr m (m.allocT tr).2 := by
+  cases tr
+  · simp only [SameOther, Mem.allocT_conf]; unfold Mem.alloc; split <;> simp
+  · simp [SameOther, Mem.allocT]
+
+theorem sameOther_freeT (m : Mem) (tr : Triple) : SameOther tr m (m.freeT tr) := by
+  cases tr
+  · simp only [SameOther, Mem.freeT_conf]; unfold Mem.free; split <;> simp
+  · simp only [SameOther, Mem.freeT]; split <;> simp
+
+theorem sameOther_check (m : Mem) (tr : Triple) (b : Bool) : SameOther tr m (m.check b) := by
+  cases b
+  · cases tr <;> simp [SameOther, Mem.check]
+  · exact SameOther.refl tr m
+
+theorem sameOther_freeN (n : Nat) (m : Mem) : SameOther tr m (freeN tr n m) := by
+  induction n generalizing m with
+  | zero => exact SameOther.refl _ _
+  | succ n ih => simp only [freeN]; exact (sameOther_freeT m tr).trans (ih _)
+
+theorem sameOther_allocChain (todo made : Nat) (m : Mem) : SameOther tr m (allocChain tr todo made m).2 := by
+  induction todo generalizing made m with
+  | zero => exact SameOther.refl _ _
+  | succ n ih =>
+    simp only [allocChain]
+    split
+    · exact (sameOther_allocT m tr).trans (sameOther_freeN _ _)
+    · exact (sameOther_allocT m tr).trans (ih _ _)
+
+theorem sameOther_setData (key : Key) (v c : Nat) (d : Option Entry) (l m r : Node) (mem : Mem) :
+    SameOther tr mem (setData tr key v c d l m r mem).mem := by
+  cases d with
+  | some e => exact SameOther.refl _ _
+  | none => simp only [setData]; split <;> exact sameOther_allocT mem tr
+
+theorem sameOther_ins (key : Key) (v : Nat) (t : Node) (ks : Key) (mem : Mem) :
+    SameOther tr mem (t.ins tr cmp key v ks mem).mem := by
+  induction t generalizing ks with
+  | nil =>
+    simp only [Node.ins]
+    split
+    · exact sameOther_allocChain _ _ _
+    · split
+      · exact ((sameOther_allocChain _ _ _).trans (sameOther_allocT _ tr)).trans (sameOther_freeN _ _)
+      · exact (sameOther_allocChain _ _ _).trans (sameOther_allocT _ tr)
+  | node c d l m r ihl ihm ihr =>
+    cases ks with
+    | nil => simp only [Node.ins]; exact sameOther_setData _ _ _ _ _ _ _ _
+    | cons x xs =>
+      simp only [Node.ins]
+      cases cmp x c <;> simp only []
+      · exact ihl _
+      · cases xs with
+        | nil => exact sameOther_setData _ _ _ _ _ _ _ _
+        | cons y ys => exact ihm _
+      · exact ihr _
+
+theorem sameOther_rebuild (c : Nat) (d : Option Entry) (l m r : Node) (q : RemRes) :
+    SameOther tr q.mem (rebuild tr c d l m r q).mem := by
   unfold rebuild; split
-  · exact free_libc _
-  · rfl
+  · exact sameOther_freeT _ _
+  · exact SameOther.refl _ _
 
-theorem remAt_libc (t : Node) (p : Path) (mem : Mem) : (t.remAt p mem).mem.libc = mem.libc := by
+theorem sameOther_remAt (t : Node) (p : Path) (mem : Mem) : SameOther tr mem (t.remAt tr p mem).mem := by
   induction t generalizing p with
-  | nil => simp [Node.remAt]
+  | nil => simp only [Node.remAt]; exact sameOther_check _ _ _
   | node c d l m r ihl ihm ihr =>
     cases p with
     | nil =>
       simp only [Node.remAt]
       cases d with
-      | none => rfl
-      | some e => simp only []; split <;> simp [free_libc]
+      | none => exact SameOther.refl _ _
+      | some e =>
+        simp only []; split
+        · exact (sameOther_freeT _ _).trans (sameOther_freeT _ _)
+        · exact sameOther_freeT _ _
     | cons dir p =>
-      cases dir <;> simp only [Node.remAt, rebuild_libc]
-      · exact ihl p
-      · exact ihm p
-      · exact ihr p
+      cases dir <;> simp only [Node.remAt]
+      · exact (ihl p).trans (sameOther_rebuild _ _ _ _ _ _)
+      · exact (ihm p).trans (sameOther_rebuild _ _ _ _ _ _)
+      · exact (ihr p).trans (sameOther_rebuild _ _ _ _ _ _)
 
-theorem freeAll_libc (t : Node) (s : Nat) (mem : Mem) : (t.freeAll s mem).2.libc = mem.libc := by
+theorem sameOther_freeAll (t : Node) (s : Nat) (mem : Mem) : SameOther tr mem (t.freeAll tr s mem).2 := by
   induction t generalizing s mem with
-  | nil => rfl
+  | nil => exact SameOther.refl _ _
   | node c d l m r ihl ihm ihr =>
     simp only [Node.freeAll]
-    cases d <;> simp only [free_libc, ihr, ihm, ihl]
+    have h : SameOther tr mem (r.freeAll tr (m.freeAll tr (l.freeAll tr s mem).1 (l.freeAll tr s mem).2).1
+        (m.freeAll tr (l.freeAll tr s mem).1 (l.freeAll tr s mem).2).2).2 :=
+      ((ihl s mem).trans (ihm (l.freeAll tr s mem).1 (l.freeAll tr s mem).2)).trans (ihr _ _)
+    cases d <;> simp only []
+    · exact h.trans (sameOther_freeT _ _)
+    · exact (h.trans (sameOther_freeT _ _)).trans (sameOther_freeT _ _)
 
-theorem iterLoop_libc (root : Node) (it : Iter) (fuel : Nat) (node prev : Option Path) (mem : Mem) :
-    (iterLoop root it fuel node prev mem).mem.libc = mem.libc := by
+theorem sameOther_iterLoop (root : Node) (it : Iter) (fuel : Nat) (node prev : Option Path) (mem : Mem) :
+    SameOther tr mem (iterLoop root it fuel node prev mem).mem := by
   induction fuel generalizing node prev with
-  | zero => cases node <;> simp [iterLoop]
+  | zero => cases node <;> simp only [iterLoop] <;> first | exact SameOther.refl _ _ | exact sameOther_check _ _ _
   | succ n ih =>
     cases node with
-    | none => simp [iterLoop]
+    | none => simp only [iterLoop]; exact SameOther.refl _ _
     | some p =>
       simp only [iterLoop]
       split
-      · simp
+      · exact sameOther_check _ _ _
       · split
-        · rfl
+        · exact SameOther.refl _ _
         · split
-          · rfl
+          · exact SameOther.refl _ _
           · exact ih _ _
 
-theorem iterNext_libc (t : Table) (it : Iter) (mem : Mem) : (iterNext t it mem).mem.libc = mem.libc := by
+theorem sameOther_iterNext (t : Table) (it : Iter) (mem : Mem) : SameOther tr mem (iterNext t it mem).mem := by
   unfold iterNext
   split
   · split
-    · split <;> simp
-    · rfl
-  · exact iterLoop_libc _ _ _ _ _ _
+    · split
+      · exact sameOther_check _ _ _
+      · exact sameOther_check _ _ _
+    · exact SameOther.refl _ _
+  · exact sameOther_iterLoop _ _ _ _ _ _
 
-theorem iterRemove_libc (t : Table) (it : Iter) (w : Bool) (mem : Mem) :
-    (iterRemove t it w mem).2.2.2.2.libc = mem.libc := by
+theorem sameOther_iterRemove (t : Table) (it : Iter) (w : Bool) (mem : Mem) :
+    SameOther t.triple mem (iterRemove t it w mem).2.2.2.2 := by
   unfold iterRemove
   split
-  · rfl
-  · simp only [remAt_libc, iterNext_libc]
-    split <;> simp
+  · exact SameOther.refl _ _
+  · split
+    · exact SameOther.refl _ _
+    · simp only []
+      refine SameOther.trans ?_ ((sameOther_iterNext t it _).trans (sameOther_remAt _ _ _))
+      split
+      · exact sameOther_check _ _ _
+      · exact SameOther.refl _ _
 
-theorem Table.new_libc (mem : Mem) : (Table.new mem).2.2.libc = mem.libc := by
-  unfold Table.new; simp only []; split <;> exact alloc_libc mem
+theorem sameOther_iterAll (t : Table) (mem : Mem) : SameOther tr mem (iterAll t mem).2 := by
+  rw [iterAll_eq]; exact SameOther.refl _ _
 
-theorem Table.step_libc (t : Table) (op : Op) (mem : Mem) : (t.step cmp op mem).2.2.libc = mem.libc := by
+theorem Table.new_sameOther (tr : Triple) (mem : Mem) : SameOther tr mem (Table.new tr mem).2.2 := by
+  unfold Table.new; simp only []; split <;> exact sameOther_allocT mem tr
+
+theorem Table.add_sameOther (t : Table) (k : Key) (v : Nat) (mem : Mem) :
+    SameOther t.triple mem (t.add cmp k v mem).2.2 := sameOther_ins _ _ _ _ _
+
+theorem Table.remove_sameOther (t : Table) (k : Key) (mem : Mem) :
+    SameOther t.triple mem (t.remove cmp k mem).2.2.2 := by
+  simp only [Table.remove]
+  split
+  · exact SameOther.refl _ _
+  · split
+    · exact SameOther.refl _ _
+    · exact sameOther_remAt _ _ _
+
+theorem Table.removeAll_sameOther (t : Table) (mem : Mem) : SameOther t.triple mem (t.removeAll mem).2 :=
+  sameOther_freeAll _ _ _
+
+theorem Table.destroy_sameOther (t : Table) (mem : Mem) : SameOther t.triple mem (t.destroy mem) :=
+  (sameOther_freeAll _ _ _).trans (sameOther_freeT _ _)
+
+theorem Table.iterOp_triple (t : Table) (it : Iter) (op : IOp) (mem : Mem) :
+    (t.iterOp cmp it op mem).2.1.triple = t.triple := by
   cases op with
-  | add k v sched => simp only [Table.step, Table.add, ins_libc]; rfl
-  | get k => rfl
-  | contains k => rfl
-  | remove k =>
-    simp only [Table.step, Table.remove]
+  | remove w =>
+    simp only [Table.iterOp, iterRemove]
     split
     · rfl
-    · split
-      · rfl
-      · exact remAt_libc _ _ _
-  | removeAll => exact freeAll_libc _ _ _
-  | size => rfl
-  | enumerate => simp [Table.step, iterAll_eq]
+    · split <;> rfl
+  | _ => rfl
 
-theorem Table.run_libc (t : Table) (ops : List Op) (mem : Mem) : (t.run cmp ops mem).2.2.libc = mem.libc := by
-  induction ops generalizing t mem with
-  | nil => rfl
-  | cons op ops ih => simp only [Table.run]; rw [ih, Table.step_libc]
-
-theorem Table.destroy_libc (t : Table) (mem : Mem) : (t.destroy mem).libc = mem.libc := by
-  simp only [Table.destroy, Table.removeAll, free_libc, freeAll_libc]
-
-theorem Table.iterOp_libc (t : Table) (it : Iter) (op : IOp) (mem : Mem) :
-    (t.iterOp it op mem).2.2.2.libc = mem.libc := by
+theorem Table.iterOp_sameOther (t : Table) (it : Iter) (op : IOp) (mem : Mem) :
+    SameOther t.triple mem (t.iterOp cmp it op mem).2.2.2 := by
   cases op with
-  | next => exact iterNext_libc t it mem
-  | remove w => exact iterRemove_libc t it w mem
+  | next => exact sameOther_iterNext t it mem
+  | remove w => exact sameOther_iterRemove t it w mem
+  | get k => exact SameOther.refl _ _
+  | contains k => exact SameOther.refl _ _
+  | size => exact SameOther.refl _ _
 
-theorem Table.iterRun_libc (t : Table) (it : Iter) (ops : List IOp) (mem : Mem) :
-    (t.iterRun it ops mem).2.2.2.libc = mem.libc := by
+theorem Table.iterRun_triple (t : Table) (it : Iter) (ops : List IOp) (mem : Mem) :
+    (t.iterRun cmp it ops mem).2.1.triple = t.triple := by
   induction ops generalizing t it mem with
   | nil => rfl
-  | cons op ops ih => simp only [Table.iterRun]; rw [ih, Table.iterOp_libc]
+  | cons op ops ih => simp only [Table.iterRun]; rw [ih, Table.iterOp_triple]
+
+theorem Table.iterRun_sameOther (t : Table) (it : Iter) (ops : List IOp) (mem : Mem) :
+    SameOther t.triple mem (t.iterRun cmp it ops mem).2.2.2 := by
+  induction ops generalizing t it mem with
+  | nil => exact SameOther.refl _ _
+  | cons op ops ih =>
+    simp only [Table.iterRun]
+    have := ih (t.iterOp cmp it op mem).2.1 (t.iterOp cmp it op mem).2.2.1 (t.iterOp cmp it op mem).2.2.2
+    rw [Table.iterOp_triple] at this
+    exact (Table.iterOp_sameOther t it op mem).trans this
+
+theorem Table.step_triple (t : Table) (op : Op) (mem : Mem) : (t.step cmp op mem).2.1.triple = t.triple := by
+  cases op with
+  | remove k => exact Table.remove_triple t k mem
+  | iterate prog => exact Table.iterRun_triple t _ prog mem
+  | _ => rfl
+
+/-- the cumulative part of `SameOther` (what survives `Mem.begin`, which clears the per-call counters
+and installs the schedule of the call) -/
+def SameOtherC (tr : Triple) (m m' : Mem) : Prop :=
+  match tr with
+  | .conf => m'.libc = m.libc ∧ m'.liveLibc = m.liveLibc
+  | .libc => m'.live = m.live
+
+theorem SameOther.toC {tr : Triple} {m m' : Mem} (h : SameOther tr m m') : SameOtherC tr m m' := by
+  cases tr <;> simp only [SameOther, SameOtherC] at * <;> simp [h]
+
+theorem SameOtherC.refl (tr : Triple) (m : Mem) : SameOtherC tr m m := by cases tr <;> simp [SameOtherC]
+
+theorem SameOtherC.trans {tr : Triple} {a b c : Mem} (h1 : SameOtherC tr a b) (h2 : SameOtherC tr b c) :
+    SameOtherC tr a c := by
+  cases tr <;> simp only [SameOtherC] at * <;> simp [h1, h2]
+
+theorem sameOtherC_begin (tr : Triple) (m : Mem) (sched : List Bool) : SameOtherC tr m (m.begin sched) := by
+  cases tr <;> simp [SameOtherC, Mem.begin]
+
+theorem Table.step_sameOtherC (t : Table) (op : Op) (mem : Mem) :
+    SameOtherC t.triple mem (t.step cmp op mem).2.2 := by
+  cases op with
+  | add k v sched => exact (sameOtherC_begin _ _ _).trans (Table.add_sameOther t k v _).toC
+  | get k => exact SameOtherC.refl _ _
+  | contains k => exact SameOtherC.refl _ _
+  | remove k => exact (Table.remove_sameOther t k mem).toC
+  | removeAll => exact (Table.removeAll_sameOther t mem).toC
+  | size => exact SameOtherC.refl _ _
+  | enumerate => exact (sameOther_iterAll t mem).toC
+  | iterate prog => exact (Table.iterRun_sameOther t _ prog mem).toC
+
+theorem Table.run_triple (t : Table) (ops : List Op) (mem : Mem) : (t.run cmp ops mem).2.1.triple = t.triple := by
+  induction ops generalizing t mem with
+  | nil => rfl
+  | cons op ops ih => simp only [Table.run]; rw [ih, Table.step_triple]
+
+theorem Table.run_sameOtherC (t : Table) (ops : List Op) (mem : Mem) :
+    SameOtherC t.triple mem (t.run cmp ops mem).2.2 := by
+  induction ops generalizing t mem with
+  | nil => exact SameOtherC.refl _ _
+  | cons op ops ih =>
+    simp only [Table.run]
+    have := ih (t.step cmp op mem).2.1 (t.step cmp op mem).2.2
+    rw [Table.step_triple] at this
+    exact (Table.step_sameOtherC t op mem).trans this
 
 /-! ### the ledger matters only through its refusal schedule -/
 
-theorem alloc_sched (m m' : Mem) (h : m.sched = m'.sched) :
-    m.alloc.1 = m'.alloc.1 ∧ m.alloc.2.sched = m'.alloc.2.sched := by
-  unfold Mem.alloc
-  rw [h]
-  cases hs : m'.sched with
-  | nil => exact ⟨rfl, rfl⟩
-  | cons b rest => cases b <;> exact ⟨rfl, rfl⟩
+theorem alloc_sched (m m' : Mem) (tr : Triple) (h : m.sched = m'.sched) :
+    (m.allocT tr).1 = (m'.allocT tr).1 ∧ (m.allocT tr).2.sched = (m'.allocT tr).2.sched := by
+  cases tr
+  · simp only [Mem.allocT_conf]
+    unfold Mem.alloc
+    rw [h]
+    cases hs : m'.sched with
+    | nil => exact ⟨rfl, rfl⟩
+    | cons b rest => cases b <;> exact ⟨rfl, rfl⟩
+  · exact ⟨rfl, h⟩
 
-theorem free_sched (m : Mem) : m.free.sched = m.sched := by unfold Mem.free; split <;> rfl
+theorem free_sched (m : Mem) (tr : Triple) : (m.freeT tr).sched = m.sched := by
+  cases tr
+  · simp only [Mem.freeT_conf]; unfold Mem.free; split <;> rfl
+  · simp only [Mem.freeT]; split <;> rfl
 
-theorem freeN_sched (n : Nat) (m : Mem) : (freeN n m).sched = m.sched := by
+theorem freeN_sched (n : Nat) (m : Mem) : (freeN tr n m).sched = m.sched := by
   induction n generalizing m with
   | zero => rfl
   | succ n ih => simp only [freeN]; rw [ih, free_sched]
 
 theorem allocChain_sched (todo made : Nat) (m m' : Mem) (h : m.sched = m'.sched) :
-    (allocChain todo made m).1 = (allocChain todo made m').1 ∧
-    (allocChain todo made m).2.sched = (allocChain todo made m').2.sched := by
+    (allocChain tr todo made m).1 = (allocChain tr todo made m').1 ∧
+    (allocChain tr todo made m).2.sched = (allocChain tr todo made m').2.sched := by
   induction todo generalizing made m m' with
   | zero => exact ⟨rfl, h⟩
   | succ n ih =>
-    have a := alloc_sched m m' h
+    have a := alloc_sched m m' tr h
     simp only [allocChain]
     rw [a.1]
-    cases m'.alloc.1
+    cases (m'.allocT tr).1
     · simp only [Bool.not_false, if_true, freeN_sched]; exact ⟨by triv, a.2⟩
     · simp only [Bool.not_true, Bool.false_eq_true, if_false]; exact ih _ _ _ a.2
 
@@ -157,25 +318,25 @@ def InsRes.pure (q : InsRes) : Stat × Node × Bool := (q.st, q.node, q.inc)
 
 theorem setData_sched (key : Key) (v c : Nat) (d : Option Entry) (l m r : Node) (mem mem' : Mem)
     (h : mem.sched = mem'.sched) :
-    (setData key v c d l m r mem).pure = (setData key v c d l m r mem').pure := by
+    (setData tr key v c d l m r mem).pure = (setData tr key v c d l m r mem').pure := by
   cases d with
   | some e => rfl
   | none =>
-    have a := alloc_sched mem mem' h
+    have a := alloc_sched mem mem' tr h
     simp only [setData, a.1]
-    cases mem'.alloc.1 <;> rfl
+    cases (mem'.allocT tr).1 <;> rfl
 
 theorem ins_sched (key : Key) (v : Nat) (t : Node) (ks : Key) (mem mem' : Mem) (h : mem.sched = mem'.sched) :
-    (t.ins cmp key v ks mem).pure = (t.ins cmp key v ks mem').pure := by
+    (t.ins tr cmp key v ks mem).pure = (t.ins tr cmp key v ks mem').pure := by
   induction t generalizing ks with
   | nil =>
-    have a := allocChain_sched (chainLen ks) 0 mem mem' h
-    have b := alloc_sched _ _ a.2
+    have a := allocChain_sched (tr := tr) (chainLen ks) 0 mem mem' h
+    have b := alloc_sched _ _ tr a.2
     simp only [Node.ins, a.1, b.1]
-    cases (allocChain (chainLen ks) 0 mem').1
+    cases (allocChain tr (chainLen ks) 0 mem').1
     · rfl
     · simp only [Bool.not_true, Bool.false_eq_true, if_false]
-      cases (allocChain (chainLen ks) 0 mem').2.alloc.1 <;> rfl
+      cases ((allocChain tr (chainLen ks) 0 mem').2.allocT tr).1 <;> rfl
   | node c d l m r ihl ihm ihr =>
     cases ks with
     | nil => simp only [Node.ins]; exact setData_sched key v c d l m r mem mem' h
@@ -195,7 +356,7 @@ theorem ins_sched (key : Key) (v : Nat) (t : Node) (ks : Key) (mem mem' : Mem) (
 /-- `add`: status and resulting table depend on the ledger only through the schedule -/
 theorem Table.add_sched (t : Table) (key : Key) (v : Nat) (mem mem' : Mem) (h : mem.sched = mem'.sched) :
     (t.add cmp key v mem).1 = (t.add cmp key v mem').1 ∧ (t.add cmp key v mem).2.1 = (t.add cmp key v mem').2.1 := by
-  have := ins_sched (cmp := cmp) key v t.root key mem mem' h
+  have := ins_sched (tr := t.triple) (cmp := cmp) key v t.root key mem mem' h
   simp only [InsRes.pure, Prod.mk.injEq] at this
   simp only [Table.add]
   exact ⟨this.1, by rw [this.2.1, this.2.2]⟩
@@ -205,12 +366,13 @@ def RemRes.pure (q : RemRes) : Bool × Node × Bool := (q.hit, q.node, q.pruned)
 
 theorem rebuild_pure (c : Nat) (d : Option Entry) (l m r : Node) (q q' : RemRes)
     (h : q.hit = q'.hit ∧ q.pruned = q'.pruned) :
-    (rebuild c d l m r q).pure = (rebuild c d l m r q').pure := by
+    (rebuild tr c d l m r q).pure = (rebuild tr c d l m r q').pure := by
   unfold rebuild
   rw [h.2]
   split <;> simp [RemRes.pure, h.1]
 
-theorem remAt_indep (t : Node) (p : Path) (mem mem' : Mem) : (t.remAt p mem).pure = (t.remAt p mem').pure := by
+theorem remAt_indep (t : Node) (p : Path) (mem mem' : Mem) :
+    (t.remAt tr p mem).pure = (t.remAt tr p mem').pure := by
   induction t generalizing p with
   | nil => rfl
   | node c d l m r ihl ihm ihr =>
@@ -229,8 +391,9 @@ theorem remAt_indep (t : Node) (p : Path) (mem mem' : Mem) : (t.remAt p mem).pur
       · have := ihr p; simp only [RemRes.pure, Prod.mk.injEq] at this
         rw [this.2.1]; exact rebuild_pure _ _ _ _ _ _ _ ⟨this.1, this.2.2⟩
 
-theorem remAt_node_indep (t : Node) (p : Path) (mem mem' : Mem) : (t.remAt p mem).node = (t.remAt p mem').node := by
-  have := remAt_indep t p mem mem'
+theorem remAt_node_indep (t : Node) (p : Path) (mem mem' : Mem) :
+    (t.remAt tr p mem).node = (t.remAt tr p mem').node := by
+  have := remAt_indep (tr := tr) t p mem mem'
   simp only [RemRes.pure, Prod.mk.injEq] at this
   exact this.2.1
 
@@ -242,18 +405,98 @@ def Node.freeAllSize : Node → Nat → Nat
     | some _ => decSize (r.freeAllSize (m.freeAllSize (l.freeAllSize s)))
     | none => r.freeAllSize (m.freeAllSize (l.freeAllSize s))
 
-theorem freeAll_fst (t : Node) (s : Nat) (mem : Mem) : (t.freeAll s mem).1 = t.freeAllSize s := by
+theorem freeAll_fst (t : Node) (s : Nat) (mem : Mem) : (t.freeAll tr s mem).1 = t.freeAllSize s := by
   induction t generalizing s mem with
   | nil => rfl
   | node c d l m r ihl ihm ihr =>
     simp only [Node.freeAll, Node.freeAllSize]
     cases d <;> simp only [ihl, ihm, ihr]
 
-theorem freeAll_indep (t : Node) (s : Nat) (mem mem' : Mem) : (t.freeAll s mem).1 = (t.freeAll s mem').1 := by
+theorem freeAll_indep (t : Node) (s : Nat) (mem mem' : Mem) :
+    (t.freeAll tr s mem).1 = (t.freeAll tr s mem').1 := by
   rw [freeAll_fst, freeAll_fst]
 
-/-- **one operation**: output and resulting table do not depend on the ledger (an `add` carries its own
-schedule) -/
+/-- result of `iter_next` without the ledger -/
+def NextRes.pure (r : NextRes) : Stat × Option Entry × Iter := (r.st, r.out, r.it)
+
+theorem iterLoop_indep (root : Node) (it : Iter) (fuel : Nat) (node prev : Option Path) (mem mem' : Mem) :
+    (iterLoop root it fuel node prev mem).pure = (iterLoop root it fuel node prev mem').pure := by
+  induction fuel generalizing node prev with
+  | zero => cases node <;> rfl
+  | succ n ih =>
+    cases node with
+    | none => rfl
+    | some p =>
+      simp only [iterLoop]
+      split
+      · rfl
+      · split
+        · rfl
+        · split
+          · rfl
+          · exact ih _ _
+
+theorem iterNext_indep (t : Table) (it : Iter) (mem mem' : Mem) :
+    (iterNext t it mem).pure = (iterNext t it mem').pure := by
+  unfold iterNext
+  split
+  · split
+    · split <;> rfl
+    · rfl
+  · exact iterLoop_indep _ _ _ _ _ _ _
+
+theorem iterRemove_indep (t : Table) (it : Iter) (w : Bool) (mem mem' : Mem) :
+    (iterRemove t it w mem).1 = (iterRemove t it w mem').1 ∧
+    (iterRemove t it w mem).2.1 = (iterRemove t it w mem').2.1 ∧
+    (iterRemove t it w mem).2.2.1 = (iterRemove t it w mem').2.2.1 ∧
+    (iterRemove t it w mem).2.2.2.1 = (iterRemove t it w mem').2.2.2.1 := by
+  unfold iterRemove
+  split
+  · exact ⟨by triv, by triv, by triv, by triv⟩
+  · split
+    · exact ⟨by triv, by triv, by triv, by triv⟩
+    · rename_i p _ _
+      simp only []
+      have hn := iterNext_indep t it (if w = true then mem.check ((t.root.sub p).data?).isSome else mem)
+        (if w = true then mem'.check ((t.root.sub p).data?).isSome else mem')
+      simp only [NextRes.pure, Prod.mk.injEq] at hn
+      refine ⟨by triv, by triv, ?_, ?_⟩
+      · rw [remAt_node_indep _ _ _ (iterNext t it (if w = true then mem'.check ((t.root.sub p).data?).isSome else mem')).mem]
+      · rw [hn.1, hn.2.2]
+
+theorem Table.iterOp_indep (t : Table) (it : Iter) (op : IOp) (mem mem' : Mem) :
+    (t.iterOp cmp it op mem).1 = (t.iterOp cmp it op mem').1 ∧
+    (t.iterOp cmp it op mem).2.1 = (t.iterOp cmp it op mem').2.1 ∧
+    (t.iterOp cmp it op mem).2.2.1 = (t.iterOp cmp it op mem').2.2.1 := by
+  cases op with
+  | next =>
+    have := iterNext_indep t it mem mem'
+    simp only [NextRes.pure, Prod.mk.injEq] at this
+    simp only [Table.iterOp]
+    exact ⟨by rw [this.1, this.2.1], by triv, this.2.2⟩
+  | remove w =>
+    have := iterRemove_indep t it w mem mem'
+    simp only [Table.iterOp]
+    exact ⟨by rw [this.1, this.2.1], this.2.2.1, this.2.2.2⟩
+  | get k => exact ⟨rfl, rfl, rfl⟩
+  | contains k => exact ⟨rfl, rfl, rfl⟩
+  | size => exact ⟨rfl, rfl, rfl⟩
+
+theorem Table.iterRun_indep (t : Table) (it : Iter) (ops : List IOp) (mem mem' : Mem) :
+    (t.iterRun cmp it ops mem).1 = (t.iterRun cmp it ops mem').1 ∧
+    (t.iterRun cmp it ops mem).2.1 = (t.iterRun cmp it ops mem').2.1 := by
+  induction ops generalizing t it mem mem' with
+  | nil => exact ⟨rfl, rfl⟩
+  | cons op ops ih =>
+    have s := Table.iterOp_indep (cmp := cmp) t it op mem mem'
+    simp only [Table.iterRun]
+    rw [s.1, s.2.1, s.2.2]
+    have := ih (t.iterOp cmp it op mem').2.1 (t.iterOp cmp it op mem').2.2.1 (t.iterOp cmp it op mem).2.2.2
+      (t.iterOp cmp it op mem').2.2.2
+    exact ⟨by rw [this.1], this.2⟩
+
+/-- **one operation**: output and resulting table do not depend on the ledger (an `add` installs its
+own schedule with `Mem.begin`, so even the incoming schedule is irrelevant) -/
 theorem Table.step_indep (t : Table) (op : Op) (mem mem' : Mem) :
     (t.step cmp op mem).1 = (t.step cmp op mem').1 ∧ (t.step cmp op mem).2.1 = (t.step cmp op mem').2.1 := by
   cases op with
@@ -275,6 +518,10 @@ theorem Table.step_indep (t : Table) (op : Op) (mem mem' : Mem) :
     exact ⟨by triv, by rw [freeAll_indep _ _ mem mem']⟩
   | size => exact ⟨rfl, rfl⟩
   | enumerate => simp [Table.step, iterAll_eq]
+  | iterate prog =>
+    have := Table.iterRun_indep (cmp := cmp) t (iterInit t) prog mem mem'
+    simp only [Table.step]
+    exact ⟨by rw [this.1], this.2⟩
 
 theorem Table.run_indep (t : Table) (ops : List Op) (mem mem' : Mem) :
     (t.run cmp ops mem).1 = (t.run cmp ops mem').1 ∧ (t.run cmp ops mem).2.1 = (t.run cmp ops mem').2.1 := by
@@ -299,68 +546,155 @@ theorem Table.run_append (t : Table) (xs ys : List Op) (mem : Mem) :
 
 theorem Table.add_status (t : Table) (key : Key) (v : Nat) (mem : Mem) :
     (t.add cmp key v mem).1 = .ok ∨ (t.add cmp key v mem).1 = .errAlloc := by
-  have q := ins_spec (cmp := cmp) key v t.root key mem
-  by_cases h : (t.root.ins cmp key v key mem).st = .ok
+  have q := ins_spec (tr := t.triple) (cmp := cmp) key v t.root key mem
+  by_cases h : (t.root.ins t.triple cmp key v key mem).st = .ok
   · exact Or.inl h
   · exact Or.inr (q.2.1 h).1
 
 /-- a failed `add` gives back the very same table and a ledger with the same number of live blocks -/
 theorem Table.add_atomic_any (t : Table) (key : Key) (v : Nat) (mem : Mem) (h : (t.add cmp key v mem).1 ≠ .ok) :
     (t.add cmp key v mem).1 = .errAlloc ∧ (t.add cmp key v mem).2.1 = t ∧
-    (t.add cmp key v mem).2.2.live = mem.live ∧ (t.add cmp key v mem).2.2.fault = mem.fault := by
-  have q := ins_spec (cmp := cmp) key v t.root key mem
+    (t.add cmp key v mem).2.2.liveT t.triple = mem.liveT t.triple ∧ (t.add cmp key v mem).2.2.fault = mem.fault := by
+  have q := ins_spec (tr := t.triple) (cmp := cmp) key v t.root key mem
   obtain ⟨q1, q2, q3, q4⟩ := q.2.1 h
-  refine ⟨q1, ?_, q4, q.2.2.1⟩
+  refine ⟨q1, ?_, q4, q.2.2⟩
   simp only [Table.add, q2, q3]; rfl
 
-/-! ### the structural step: every operation, every key -/
+/-! ### the structural step: every operation, every key, every iterator session -/
 
-/-- **every operation keeps the structural invariant, the ledger and never faults** — also with the
-empty key (X5 does not reach memory safety) -/
+/-- structural facts about a state transition `(t, mem) → (t', mem')`: invariant, no new fault, and the
+**exact** ledger equation — the change of the live-block counter of the table's triple is the change of
+the number of blocks the table owns -/
+def StructOK (cmp : Cmp) (t : Table) (mem : Mem) (t' : Table) (mem' : Mem) : Prop :=
+  t'.Inv cmp ∧ mem'.fault = mem.fault ∧ t'.triple = t.triple ∧
+  mem'.liveT t.triple + t.root.owned = mem.liveT t.triple + t'.root.owned
+
+theorem StructOK.refl (t : Table) (mem : Mem) (hi : t.Inv cmp) : StructOK cmp t mem t mem :=
+  ⟨hi, rfl, rfl, rfl⟩
+
+theorem StructOK.owns {t t' : Table} {mem mem' : Mem} (h : StructOK cmp t mem t' mem') (hl : t.Owns mem) :
+    t'.Owns mem' := by
+  obtain ⟨_, _, h3, h4⟩ := h
+  unfold Table.Owns at hl ⊢; rw [h3]; omega
+
+theorem StructOK.trans {t t' t'' : Table} {mem mem' mem'' : Mem} (h1 : StructOK cmp t mem t' mem')
+    (h2 : StructOK cmp t' mem' t'' mem'') : StructOK cmp t mem t'' mem'' := by
+  obtain ⟨a1, a2, a3, a4⟩ := h1
+  obtain ⟨b1, b2, b3, b4⟩ := h2
+  rw [a3] at b4
+  exact ⟨b1, by rw [b2, a2], by rw [b3, a3], by omega⟩
+
+/-- one call of an iterator session, for any key set: the table keeps its structural invariant, the
+ledger equation is exact, nothing faults, and the iterator stays at a position of the enumeration -/
+theorem Table.iterOp_struct (t : Table) (it : Iter) (op : IOp) (mem : Mem) (todo : List (Path × Entry))
+    (hi : t.Inv cmp) (hl : t.Owns mem) (hok : IterOk t.root it todo) (hcm : it.curMarked t.root) :
+    StructOK cmp t mem (t.iterOp cmp it op mem).2.1 (t.iterOp cmp it op mem).2.2.2 ∧
+    ∃ todo', IterOk (t.iterOp cmp it op mem).2.1.root (t.iterOp cmp it op mem).2.2.1 todo' ∧
+      (t.iterOp cmp it op mem).2.2.1.curMarked (t.iterOp cmp it op mem).2.1.root := by
+  cases op with
+  | next =>
+    obtain ⟨n1, n2, n3⟩ := iterNext_ok t it mem todo hok
+    simp only [Table.iterOp]
+    rw [n1]
+    refine ⟨StructOK.refl t mem hi, ?_⟩
+    cases todo with
+    | nil =>
+      refine ⟨[], n3.2.2.1, ?_⟩
+      intro p hp; rw [n3.2.2.2] at hp; cases hp
+    | cons x tl =>
+      refine ⟨tl, n3.2.2.1, ?_⟩
+      intro p hp; rw [n3.2.2.2] at hp; simp at hp; subst hp
+      exact ⟨x.2, hok.head_data mem⟩
+  | remove w =>
+    simp only [Table.iterOp]
+    by_cases hin : it.cur = none ∨ it.adv = true
+    · rw [iterRemove_inert t it w mem hin]
+      exact ⟨StructOK.refl t mem hi, todo, hok, hcm⟩
+    · have hadv : it.adv = false := by
+        cases h : it.adv with
+        | false => rfl
+        | true => exact absurd (Or.inr h) hin
+      cases hcur : it.cur with
+      | none => exact absurd (Or.inl hcur) hin
+      | some p =>
+        obtain ⟨e, hd⟩ := hcm p hcur
+        have hat : IterAt t.root it todo := by
+          rcases hok with ⟨_, h⟩ | ⟨h, _⟩
+          · exact h
+          · rw [hadv] at h; cases h
+        obtain ⟨h1, h2, h3, h4, h5, h6⟩ := iterRemove_ok t it w mem todo p e hat hadv hcur hd
+        obtain ⟨q1, q2, q3, q4, q6⟩ := remAt_spec t.triple t.root p mem e hd (by unfold Table.Owns at hl; omega)
+        obtain ⟨hs, hp, ho⟩ := hi
+        rw [h3, h4]
+        refine ⟨⟨⟨?_, pruned_remAt _ _ _ hp, ordered_remAt _ _ _ ho⟩, q4, rfl, q3⟩, todo, h6, ?_⟩
+        · simp only [decSize]; rw [hs]; split <;> omega
+        · intro q hq
+          rcases h6 with ⟨h, _⟩ | ⟨_, h⟩
+          · have : (iterRemove t it w mem).2.2.2.1.adv = true := by simp [iterRemove, hcur, hadv]
+            rw [this] at h; cases h
+          · cases todo with
+            | nil => rw [h.2.1] at hq; cases hq
+            | cons x tl => rw [h.2.2.1] at hq; simp at hq; subst hq; exact ⟨x.2, h.2.1⟩
+  | get k => exact ⟨StructOK.refl t mem hi, todo, hok, hcm⟩
+  | contains k => exact ⟨StructOK.refl t mem hi, todo, hok, hcm⟩
+  | size => exact ⟨StructOK.refl t mem hi, todo, hok, hcm⟩
+
+theorem Table.iterRun_struct (t : Table) (it : Iter) (ops : List IOp) (mem : Mem) (todo : List (Path × Entry))
+    (hi : t.Inv cmp) (hl : t.Owns mem) (hok : IterOk t.root it todo) (hcm : it.curMarked t.root) :
+    StructOK cmp t mem (t.iterRun cmp it ops mem).2.1 (t.iterRun cmp it ops mem).2.2.2 := by
+  induction ops generalizing t it mem todo with
+  | nil => exact StructOK.refl t mem hi
+  | cons op ops ih =>
+    obtain ⟨s, todo', h1, h2⟩ := Table.iterOp_struct (cmp := cmp) t it op mem todo hi hl hok hcm
+    simp only [Table.iterRun]
+    exact s.trans (ih _ _ _ todo' s.1 (s.owns hl) h1 h2)
+
+theorem iterInit_curMarked (t : Table) : (iterInit t).curMarked t.root := by
+  intro p hp; simp [iterInit] at hp
+
+/-- **every operation of a history keeps the structural invariant, the exact ledger and never faults** —
+also with the empty key (X5 does not reach memory safety) and through whole iterator sessions -/
 theorem Table.step_struct (t : Table) (op : Op) (mem : Mem) (hi : t.Inv cmp) (hl : t.Owns mem) :
-    (t.step cmp op mem).2.1.Inv cmp ∧ (t.step cmp op mem).2.2.fault = mem.fault ∧
-    (t.step cmp op mem).2.2.live + t.root.owned = mem.live + (t.step cmp op mem).2.1.root.owned := by
+    StructOK cmp t mem (t.step cmp op mem).2.1 (t.step cmp op mem).2.2 := by
   cases op with
   | add k v sched =>
     have := Table.add_inv_any_key (cmp := cmp) t k v (mem.begin sched) hi
-    exact ⟨this.1, this.2.1, this.2.2⟩
-  | get k => exact ⟨hi, rfl, rfl⟩
-  | contains k => exact ⟨hi, rfl, rfl⟩
-  | remove k => exact Table.remove_inv_any_key t k mem hi hl
+    rw [begin_liveT] at this
+    exact ⟨this.1, this.2.1, rfl, this.2.2⟩
+  | get k => exact StructOK.refl t mem hi
+  | contains k => exact StructOK.refl t mem hi
+  | remove k =>
+    have := Table.remove_inv_any_key (cmp := cmp) t k mem hi hl
+    exact ⟨this.1, this.2.1, Table.remove_triple t k mem, this.2.2⟩
   | removeAll =>
     have h := Table.removeAll_spec t mem hi.1 hl
     simp only [Table.step]
     rw [h.1]
-    refine ⟨⟨rfl, trivial, trivial⟩, h.2.2.1, ?_⟩
-    rw [h.2.1]; unfold Table.Owns at hl; simp; omega
-  | size => exact ⟨hi, rfl, rfl⟩
-  | enumerate => simp only [Table.step, iterAll_eq]; exact ⟨hi, by triv, by triv⟩
-
-theorem Table.step_owns (t : Table) (op : Op) (mem : Mem) (hi : t.Inv cmp) (hl : t.Owns mem) :
-    (t.step cmp op mem).2.1.Owns (t.step cmp op mem).2.2 := by
-  have := (Table.step_struct (cmp := cmp) t op mem hi hl).2.2
-  unfold Table.Owns at hl ⊢; omega
+    refine ⟨⟨rfl, trivial, trivial⟩, h.2.2, rfl, ?_⟩
+    rw [h.2.1]; unfold Table.Owns at hl; simp only [owned_nil]; omega
+  | size => exact StructOK.refl t mem hi
+  | enumerate => simp only [Table.step, iterAll_eq]; exact StructOK.refl t mem hi
+  | iterate prog =>
+    exact Table.iterRun_struct t (iterInit t) prog mem t.root.entriesP hi hl
+      (Or.inl ⟨rfl, iterInit_at t⟩) (iterInit_curMarked t)
 
 theorem Table.run_struct (t : Table) (ops : List Op) (mem : Mem) (hi : t.Inv cmp) (hl : t.Owns mem) :
-    (t.run cmp ops mem).2.1.Inv cmp ∧ (t.run cmp ops mem).2.2.fault = mem.fault ∧
-    (t.run cmp ops mem).2.2.live + t.root.owned = mem.live + (t.run cmp ops mem).2.1.root.owned := by
+    StructOK cmp t mem (t.run cmp ops mem).2.1 (t.run cmp ops mem).2.2 := by
   induction ops generalizing t mem with
-  | nil => exact ⟨hi, rfl, rfl⟩
+  | nil => exact StructOK.refl t mem hi
   | cons op ops ih =>
     have s := Table.step_struct (cmp := cmp) t op mem hi hl
-    have so := Table.step_owns (cmp := cmp) t op mem hi hl
-    have := ih _ _ s.1 so
     simp only [Table.run]
-    exact ⟨this.1, by rw [this.2.1, s.2.1], by omega⟩
+    exact s.trans (ih _ _ s.1 (s.owns hl))
 
 /-! ### a complete traversal -/
 
 /-- `n + 1` calls of `iter_next` from a position with `n` entries to come: the entries in order, then END -/
 theorem iterRun_nexts (t : Table) (mem : Mem) : ∀ (todo : List (Path × Entry)) (it : Iter), IterOk t.root it todo →
-    (t.iterRun it (List.replicate (todo.length + 1) .next) mem).1 =
+    (t.iterRun cmp it (List.replicate (todo.length + 1) .next) mem).1 =
       todo.map (fun x => ({ st := .ok, key := some x.2.1, val := some x.2.2 } : IOut)) ++ [{ st := .iterEnd }] ∧
-    (t.iterRun it (List.replicate (todo.length + 1) .next) mem).2.1 = t ∧
-    (t.iterRun it (List.replicate (todo.length + 1) .next) mem).2.2.2 = mem := by
+    (t.iterRun cmp it (List.replicate (todo.length + 1) .next) mem).2.1 = t ∧
+    (t.iterRun cmp it (List.replicate (todo.length + 1) .next) mem).2.2.2 = mem := by
   intro todo
   induction todo with
   | nil =>
@@ -374,5 +708,25 @@ theorem iterRun_nexts (t : Table) (mem : Mem) : ∀ (todo : List (Path × Entry)
     have := ih _ n5
     simp only [List.length_cons, List.replicate, Table.iterRun, Table.iterOp, n3, n4, n1] at this ⊢
     exact ⟨by rw [this.1]; rfl, this.2.1, this.2.2⟩
+
+/-! ### the ideal cursor -/
+namespace SpecLemmas
+open CC.Spec
+
+theorem cursorNext_end (s : StrMap) (cu : StrMap.Cursor) (ch : Option SKey) (h : cu.todo = []) :
+    StrMap.cursorNext s cu ch = (.iterEnd, none, true, { todo := [], last := none }) := by
+  unfold StrMap.cursorNext; rw [h]
+
+theorem cursorNext_yield (s : StrMap) (cu : StrMap.Cursor) (k : SKey) (v : Nat) (hk : k ∈ cu.todo)
+    (hget : s.get k = some v) :
+    StrMap.cursorNext s cu (some k) =
+      (.ok, some (k, v), true, { todo := cu.todo.filter (· != k), last := some k }) := by
+  unfold StrMap.cursorNext
+  have hc : cu.todo.contains k = true := by simpa using hk
+  cases hcu : cu.todo with
+  | nil => rw [hcu] at hk; cases hk
+  | cons a as => rw [hcu] at hc; simp only [hc, if_true, hget]
+
+end SpecLemmas
 
 end CC.TST
